@@ -502,6 +502,10 @@ def generate_c16(seed, tier):
             # decoy range: the refused first batch only carries small values, so a class set (or anything else) derived from it
             # and left behind would be too small for the batches accepted later
             op.append('low')
+        elif first and kind not in ('tstatic', 'tdpa', 'ttacc') and fr.random() < 0.35:
+            # decoy geometry: the refused first batch has another trace length than the batches accepted later (nothing was accepted yet, so
+            # the first accepted batch is free to define the length)
+            op.append('geom')
         ops.insert(pos, op)
     if kind in ('tstatic', 'tdpa'):
         # object starts unbuilt when a not_built probe is first; 'build' op follows it
@@ -812,8 +816,12 @@ def _execute_history(scn):
                 if prop == 'C01':
                     try:
                         tw, rt = _twin_one_batch(scn, traces, data, accepted)
-                    except Exception:
-                        inconclusive = True
+                    except Exception as e:
+                        # the split history just computed a result from these rows, the same rows as ONE batch are refused: the outcome
+                        # depends on how the traces are cut into batches
+                        violation = viol('one_batch_refused_but_split_accepted', [prop, 'one_batch_refused_but_split_accepted', kind, type(e).__name__],
+                                         'after %d batches (op %d) the history computes a result, feeding the same %d rows as one batch raises %r' % (
+                                             nupd, i, sum(y - x for x, y in accepted), e))
                         break
                     d = _same(scn, subject, r1, rt)
                     if d:
@@ -836,7 +844,10 @@ def _execute_history(scn):
                 bk, a, b = op[1], op[2], op[3]
                 first = not accepted
                 src = data[a:b] % 8 if (len(op) > 4 and op[4] == 'low') else data[a:b]
-                bt, bd = _bad_args(scn, bk, traces[a:b], src)
+                tsrc = traces[a:b]
+                if len(op) > 4 and op[4] == 'geom' and first:
+                    tsrc = np.ascontiguousarray(np.concatenate([tsrc, tsrc, tsrc[:, :1]], axis=1))
+                bt, bd = _bad_args(scn, bk, tsrc, src)
                 before = subject.count()
                 if bk == 'lowmem':
                     mem.available = 1
